@@ -29,6 +29,8 @@ def corpus():
         "c04 k_account_log cbe=fs sbe=fs devs=2 hist=s0|s1|t:50|f0:1|t:60|f1:2|s0|s1|s0|s1|s1|s0",
         # a folder created (with content) while the server does not know it yet: first sync drops its later events
         "c04 k_new_folder cbe=fs sbe=fs devs=2 hist=f0:1|s1|c0:b@1|s0|s1|s0|s1|s0|s1|s1|s0",
+        # both devices change the account log (rename / create folder) while one has local events in the new folder
+        "c04 k_acct_replay cbe=fs sbe=fs devs=2 hist=s1|r0:0:2|f1:1|c1:b@1|s1|s0|s1|s1|s0|s1|s0|s0|s1",
         "c04 k_three cbe=fs sbe=fs devs=3 hist=s0|s1|s2|t:50|c0:a|t:60|c1:b|t:70|c2:c|s0|s1|s2|s2|s1|s0|s1|s0|s2",
     ]
 
@@ -47,6 +49,15 @@ def _recs(W, name):
     return ",".join("%s@%s" % (t, tm) for t, tm in zip(W["logs"][name][2], W.get("logtimes", {}).get(name, [])))
 
 
+def _cross_log_effect(P, Q, d, name):
+    """the single-log protocol model has no cross-log effects: a folder log that SHRANK on the device during
+    a sync was re-created by the replay of merged account events (known finding C04-account-merge-recreates-folder);
+    such observations are left to the oracle"""
+    if d not in Q or name not in Q[d]["logs"]:
+        return True
+    return Q[d]["logs"][name][0] < P[d]["logs"][name][0]
+
+
 def model_input(cases, impl):
     """for every successful sync step and every log known to both sides before it: the two logs as observed"""
     out = []
@@ -63,8 +74,11 @@ def model_input(cases, impl):
             d = "D" + op[1:]
             if d not in P or "SRV" not in P:
                 continue
+            Q = S["who"]
             for name, (ln, root, toks) in sorted(P[d]["logs"].items()):
                 if name not in P["SRV"]["logs"] or not toks or not P["SRV"]["logs"][name][2]:
+                    continue
+                if _cross_log_effect(P, Q, d, name):
                     continue
                 out.append("%s %s %d %s D=%s S=%s" % (SUB, cid, st, name, _recs(P[d], name), _recs(P["SRV"], name)))
                 n += 1
@@ -87,6 +101,8 @@ def impl_projection(obs):
             continue
         for name, (ln, root, toks) in sorted(P[d]["logs"].items()):
             if name not in P["SRV"]["logs"] or not toks or not P["SRV"]["logs"][name][2]:
+                continue
+            if _cross_log_effect(P, Q, d, name):
                 continue
             a = Q[d]["logs"].get(name, (0, "-", []))[2]; b = Q["SRV"]["logs"].get(name, (0, "-", []))[2]
             out.append("%d %s dev=%s srv=%s" % (st, name, ",".join(a), ",".join(b)))
@@ -117,8 +133,10 @@ def oracle(case, obs):
                         continue
                     if a.get(name) != b.get(name):
                         prev_srv = steps.get(st - 1, {}).get("who", {}).get("SRV", {"logs": {}})
+                        prev_dev = steps.get(st - 1, {}).get("who", {}).get(d, {"logs": {}})
                         fails.append({"oracle": "ok_sync_same_roots", "log": name.split(":")[0],
                                       "folder_new_on_server": name.startswith("folder:") and name not in prev_srv["logs"],
+                                      "device_log_shrank": name in prev_dev["logs"] and prev_dev["logs"][name][0] > a.get(name, (0,))[0],
                                       "detail": "step %d: %s reported success but %s log differs: device %s server %s" % (st, op, name, a.get(name), b.get(name))})
     # quiescence: the generator ends with two rounds of syncs by every device
     last = steps[max(steps)]
